@@ -178,6 +178,28 @@ func leftEdge(n Node) int {
 	return Level(n)
 }
 
+// endsInOpenCond: the right edge of n is a conditional without else-branch
+func endsInOpenCond(n Node) bool {
+	switch n := n.(type) {
+	case *Cond:
+		if n.Else == nil {
+			return true
+		}
+		return endsInOpenCond(n.Else)
+	case *Assign:
+		return endsInOpenCond(n.Val)
+	case *Bin:
+		return endsInOpenCond(n.R)
+	case *Apply:
+		return endsInOpenCond(n.R)
+	case *Neg:
+		return endsInOpenCond(n.X)
+	case *Range:
+		return endsInOpenCond(n.R)
+	}
+	return false
+}
+
 func headIsName(p *Pred) bool {
 	_, ok := p.X.(*Name)
 	return ok
@@ -295,7 +317,10 @@ func norm(n Node, inPath bool) Node {
 		if leftLevel(c.If) <= 20 {
 			c.If = wrap(c.If)
 		}
-		if Level(c.Then) <= 20 {
+		// the then-branch sits between '?' and ':' and needs no parentheses,
+		// unless it ends in a conditional without an else-branch (which would
+		// take this conditional's ':')
+		if endsInOpenCond(c.Then) {
 			c.Then = wrap(c.Then)
 		}
 		if n.Else != nil {
